@@ -147,8 +147,8 @@ CHECKS["C13"] = (
     "5/C13",
 )
 CHECKS["C14"] = (
-    "Geometry.tla + Packing.tla + TraceGeometry.tla",
-    "TLC: the subtree packing of _layout_subtrees as a state machine in integer arithmetic (sizes bottom-up, boxes top-down, both hand-written orientations) for every species shape and trunk-size assignment of the bound: sibling boxes disjoint and inside the parent, trunks disjoint, horizontal = transposed vertical; computed layouts of enumerated and random reconciliations (seeded sizes, perturbed parameters) are projected to integer rectangles and judged by a TLA+ trace spec (contract, anchors referenced exist, mirror pair, repetition)",
+    "Geometry.tla + Packing.tla + TraceGeometry.tla + proofs/PackingLemmas.tla",
+    "TLC: the subtree packing of _layout_subtrees as a state machine in integer arithmetic (sizes bottom-up, boxes top-down, both hand-written orientations) for every species shape and trunk-size assignment of the bound: sibling boxes disjoint and inside the parent, trunks disjoint, horizontal = transposed vertical; computed layouts of enumerated and random reconciliations (seeded sizes, perturbed parameters) are projected to integer rectangles and judged by a TLA+ trace spec (contract, anchors referenced exist, mirror pair, repetition); TLAPS proves the node step of the repaired packing (trunk and child boxes inside the grown box) for all integer sizes",
     "Model checking of one stage of the layout (the packing design) against the geometric contract, and trace validation of real layouts against the same contract; TLC does not enumerate layouts as such.",
     "Trusts TLC, Geometry.tla and the projection of checks/render_common.py (dyadic coordinates scaled by 4096); stub measurer; conformance of the code to the packing model is not claimed, only to the contract.",
     "5/C14",
@@ -204,6 +204,8 @@ def main():
              "kind_free_text": "TLC 1.8 on the modules of /verif/spec (E1 state-space exploration, E2 dump generation, E3 trace validation)"},
             {"name": "apalache", "path": "/verif/spec/apalache/DPEntryInd.tla", "serves_properties": ["C16"],
              "kind_free_text": "Apalache 0.58: inductive invariant of the Entry contract over all integer candidate values (base case, step, refutation of the defect constant)"},
+            {"name": "tlaps", "path": "/verif/spec/proofs/PackingLemmas.tla", "serves_properties": ["C14"],
+             "kind_free_text": "TLAPS 1.6 (SMT back end): the node step of the subtree packing holds trunk and child boxes inside the grown box for all integer sizes; the ungrown variant fails (self-test)"},
         ],
         "checks": checks,
         "notes": "One explicit TLA+ specification (/verif/spec), three engines (TLC alone; TLC-generated cases replayed into the code; recorded executions validated by TLC). See DESIGN.md.",
